@@ -548,6 +548,28 @@ def check_repeat_calls(ctx, case):
             return
 
 
+def check_default_precision(ctx, case):
+    """mahalanobis without a precision matrix: the documented default is the identity, i.e. the same value as with
+    noise=np.eye(n_channel) -- with every option (remove_mean) honoured, for a single dataset and for a list"""
+    from rsatoolbox.rdm.calc import calc_rdm_mahalanobis
+    rng = ctx.rng
+    c2 = dict(case, prec=np.eye(case['n_ch']))
+    sig = sig_of(c2, noise='default')
+    want = ref_of(c2)
+    how = gen.pick(rng, ['calc_rdm', 'list', 'direct'])
+    kw = dict(descriptor='cond', remove_mean=case['remove_mean'])
+    if how == 'calc_rdm':
+        call = lambda: calc_rdm(build_ds(case), method='mahalanobis', **kw)  # noqa: E731
+    elif how == 'list':
+        call = lambda: calc_rdm([build_ds(case)], method='mahalanobis', **kw)  # noqa: E731
+    else:
+        call = lambda: calc_rdm_mahalanobis(build_ds(case), **kw)  # noqa: E731
+    ok, rd = ctx.guarded('single_vs_reference', dict(sig, entry=how), call, data=lambda: witness(case, entry=how))
+    if ok:
+        ctx.case('single_vs_reference', dict(sig, entry=how))
+        compare_to_ref(ctx, 'single_vs_reference', sig, rd, want, data=lambda: witness(case, entry=how))
+
+
 def run(ctx):
     n = ctx.n(250, 2400)
     for it in range(n):
@@ -561,6 +583,8 @@ def run(ctx):
         base = check_single(ctx, case)
         if base is not None:
             check_meta(ctx, case, base)
+        if case['method'] == 'mahalanobis':
+            check_default_precision(ctx, case)
         if case['method'] != 'correlation' or case['n_ch'] >= 3:
             check_nodesc(ctx, case)
         check_list(ctx, case)
